@@ -234,6 +234,12 @@ type vfC12Sim struct {
 	stop                                                bool
 }
 
+// vfC12AckEveryFor: the receiver acknowledges at least every 25 us worth of full-size packets, so
+// that ACK events at the sender stay >= 10 us apart (parameter range of the design) on fast paths.
+func vfC12AckEveryFor(capBps int64) int {
+	return int(capBps*25/1452/1_000_000) + 1
+}
+
 func vfC12LogUniform(r *rand.Rand, lo, hi float64) float64 {
 	return math.Exp(math.Log(lo) + r.Float64()*(math.Log(hi)-math.Log(lo)))
 }
@@ -241,7 +247,7 @@ func vfC12LogUniform(r *rand.Rand, lo, hi float64) float64 {
 // vfC12Gen draws the parameters of trace idx. Kinds are stratified so that every quick run
 // contains each mechanism for each profile.
 func vfC12Gen(r *rand.Rand, idx int, quick bool) vfC12Params {
-	kinds := []string{"clean", "lowbw-lossy", "highbdp", "ackagg", "applimited", "burst-blackout", "gaps-reverse", "smallmax", "reorder", "random", "longrtt"}
+	kinds := []string{"clean", "lowbw-lossy", "highbdp", "ackagg", "applimited", "burst-blackout", "gaps-reverse", "smallmax", "reorder", "random", "longrtt", "lan"}
 	p := vfC12Params{
 		CaseID:  fmt.Sprintf("trace-%05d", idx),
 		Kind:    kinds[idx%len(kinds)],
@@ -319,6 +325,19 @@ func vfC12Gen(r *rand.Rand, idx int, quick bool) vfC12Params {
 		if r.Intn(2) == 0 {
 			p.LossPPM = 0
 		}
+	case "lan":
+		// LAN / same-rack / same-host path: sub-millisecond to 2 ms RTT at 0.5..10 Gbit/s
+		// (rtt x bandwidth <= 2e16, far inside 63 bits).
+		p.RTTus = int64(vfC12LogUniform(r, 100, 2000))
+		p.CapBps = mbit(500, 10000)
+		p.DurMs = 300 + int64(r.Intn(1500))
+		p.PktBudget = 40000 + r.Intn(40000)
+		qBDP = vfC12LogUniform(r, 0.5, 8)
+		p.AckEvery = max([]int{2, 4, 10}[r.Intn(3)], vfC12AckEveryFor(p.CapBps))
+		p.AckDelayUs = []int64{1000, 5000, 25000}[r.Intn(3)]
+		if r.Intn(3) == 0 {
+			p.App = "bursts"
+		}
 	case "random":
 		p.CapBps = mbit(0.3, 1000)
 		p.RTTus = int64(vfC12LogUniform(r, 5000, 500000))
@@ -352,7 +371,7 @@ func vfC12NewSim(p vfC12Params, seed int64, onViol func(key, detail string, tail
 	s.endT = s.t0 + p.DurMs*1e6
 	s.rtt = &vfC12RTT{maxAckDelay: 25 * time.Millisecond}
 	// the handshake has given QUIC an RTT measurement before Hysteria installs BBR
-	s.rtt.UpdateRTT(time.Duration(p.RTTus)*time.Microsecond+time.Duration(s.rnd.Intn(2000))*time.Microsecond, 0)
+	s.rtt.UpdateRTT(time.Duration(p.RTTus)*time.Microsecond+time.Duration(s.rnd.Intn(int(min(2000, p.RTTus/4+1))))*time.Microsecond, 0)
 	seedMTU := min(p.QuicStart, int64(congestion.InitialPacketSize)) // utils.go seedPacketSize
 	var snd *bbrSender
 	if p.MaxPkts == congestion.MaxCongestionWindowPackets {
@@ -1126,45 +1145,66 @@ func TestVerifC12Traces(t *testing.T) {
 }
 
 type vfC12Link struct {
-	Name    string
-	Mbit    float64
-	RTTms   int64
-	QueueX  float64 // queue in BDP (0 = unlimited)
+	Name   string
+	Mbit   float64
+	RTTms  int64
+	QueueX float64 // queue in BDP (0 = unlimited)
+	RTTus  int64   // if non-zero: sub-/low-millisecond RTT (overrides RTTms)
+	DurMs  int64   // virtual duration (0 = 20 s)
+}
+
+// Short-RTT fast paths (LAN / same rack / same host): BDP far above the initial window although
+// the RTT is below or around 1 ms. Packets per virtual second are many, so these runs last
+// 0.3..0.5 virtual seconds = hundreds of round trips, STARTUP is over after a few ms.
+var vfC12FastLinks = []vfC12Link{
+	{Name: "10Gbit-0.25ms-inf", Mbit: 10000, RTTus: 250, DurMs: 300},
+	{Name: "8Gbit-0.5ms-q8", Mbit: 8000, RTTus: 500, QueueX: 8, DurMs: 400},
+	{Name: "4Gbit-0.9ms-inf", Mbit: 4000, RTTus: 900, DurMs: 400},
+	{Name: "2Gbit-1.5ms-q8", Mbit: 2000, RTTus: 1500, QueueX: 8, DurMs: 500},
+}
+
+var vfC12FastLinksThorough = []vfC12Link{
+	{Name: "10Gbit-0.1ms-inf", Mbit: 10000, RTTus: 100, DurMs: 200},
+	{Name: "2Gbit-0.5ms-q8", Mbit: 2000, RTTus: 500, QueueX: 8, DurMs: 500},
+	{Name: "4Gbit-1.2ms-inf", Mbit: 4000, RTTus: 1200, DurMs: 400},
+	{Name: "1Gbit-1.9ms-q8", Mbit: 1000, RTTus: 1900, QueueX: 8, DurMs: 800},
 }
 
 var vfC12ProgressLinks = []vfC12Link{
-	{"2Mbit-20ms-inf", 2, 20, 0},
-	{"10Mbit-50ms-q3", 10, 50, 3},
-	{"20Mbit-300ms-q4", 20, 300, 4},
-	{"50Mbit-100ms-q3", 50, 100, 3},
-	{"100Mbit-10ms-q4", 100, 10, 4},
-	{"200Mbit-40ms-inf", 200, 40, 0},
+	{Name: "2Mbit-20ms-inf", Mbit: 2, RTTms: 20},
+	{Name: "10Mbit-50ms-q3", Mbit: 10, RTTms: 50, QueueX: 3},
+	{Name: "20Mbit-300ms-q4", Mbit: 20, RTTms: 300, QueueX: 4},
+	{Name: "50Mbit-100ms-q3", Mbit: 50, RTTms: 100, QueueX: 3},
+	{Name: "100Mbit-10ms-q4", Mbit: 100, RTTms: 10, QueueX: 4},
+	{Name: "200Mbit-40ms-inf", Mbit: 200, RTTms: 40},
 }
 
 var vfC12ProgressLinksThorough = []vfC12Link{
-	{"1Mbit-150ms-q4", 1, 150, 4},
-	{"5Mbit-5ms-q4", 5, 5, 4},
-	{"30Mbit-30ms-q2", 30, 30, 2},
-	{"80Mbit-200ms-inf", 80, 200, 0},
-	{"300Mbit-20ms-q3", 300, 20, 3},
-	{"500Mbit-80ms-q4", 500, 80, 4},
+	{Name: "1Mbit-150ms-q4", Mbit: 1, RTTms: 150, QueueX: 4},
+	{Name: "5Mbit-5ms-q4", Mbit: 5, RTTms: 5, QueueX: 4},
+	{Name: "30Mbit-30ms-q2", Mbit: 30, RTTms: 30, QueueX: 2},
+	{Name: "80Mbit-200ms-inf", Mbit: 80, RTTms: 200},
+	{Name: "300Mbit-20ms-q3", Mbit: 300, RTTms: 20, QueueX: 3},
+	{Name: "500Mbit-80ms-q4", Mbit: 500, RTTms: 80, QueueX: 4},
 }
 
 // vfC12UtilThreshold: fraction of capacity that second-half goodput must reach on a loss-free
 // fixed-capacity path. Calibrated on the unchanged tree (see evidence: measured utilisations
-// are 0.93..0.99 for every profile/link/seed); 0.50 leaves a wide margin.
+// are 0.93..1.00 on the 20 s WAN links and 0.84..0.91 on the sub-millisecond multi-Gbit/s links,
+// for every profile/seed); 0.50 leaves a wide margin.
 var vfC12UtilThreshold = map[Profile]float64{ProfileConservative: 0.50, ProfileStandard: 0.50, ProfileAggressive: 0.50}
 
-// TestVerifC12Progress: loss-free fixed-capacity path, queue >= BDP, 20 virtual seconds:
+// TestVerifC12Progress: loss-free fixed-capacity path, queue >= BDP, 20 virtual seconds (0.2..0.8 s
+// = hundreds of round trips on the short-RTT multi-Gbit/s links):
 // no deadlock, second-half goodput >= threshold * capacity, for each profile.
 func TestVerifC12Progress(t *testing.T) {
 	k := vfNewKit(t, "C12", "bbr-progress")
 	defer k.Finish()
 	agg := vfC12NewAgg()
 	defer agg.finish(k)
-	links := vfC12ProgressLinks
+	links := append(append([]vfC12Link{}, vfC12ProgressLinks...), vfC12FastLinks...)
 	if !k.Quick() {
-		links = append(append([]vfC12Link{}, links...), vfC12ProgressLinksThorough...)
+		links = append(append(links, vfC12ProgressLinksThorough...), vfC12FastLinksThorough...)
 	}
 	minUtil := map[Profile]float64{}
 	minLink := map[string]float64{} // per profile+link minimum over variants
@@ -1180,13 +1220,23 @@ func TestVerifC12Progress(t *testing.T) {
 				r := k.Rand(id)
 				capBps := int64(l.Mbit * 125000)
 				rttUs := l.RTTms * 1000
+				durMs := int64(20000)
+				if l.RTTus != 0 {
+					rttUs = l.RTTus
+				}
+				if l.DurMs != 0 {
+					durMs = l.DurMs
+				}
 				bdp := capBps * rttUs / 1e6
 				p := vfC12Params{
 					CaseID: id, Kind: "progress", Profile: string(prof), CapBps: capBps, RTTus: rttUs,
 					AckEvery: []int{2, 2, 1, 10}[(li+v)%4], AckDelayUs: 25000, App: "bulk",
 					GapEvery: 256, QuicStart: []int64{1280, 1200, 1252}[(li+v)%3], MaxMTU: 1452, PathMTU: []int64{1452, 1500}[(li+v)%2], // probes are never dropped: the path is loss-free
 					PreInstall: r.Intn(4), MaxPkts: congestion.MaxCongestionWindowPackets,
-					DurMs: 20000, PktBudget: 1 << 30, Progress: true,
+					DurMs: durMs, PktBudget: 1 << 30, Progress: true,
+				}
+				if fast := vfC12AckEveryFor(capBps); fast > p.AckEvery {
+					p.AckEvery = fast // keeps ACK events >= 10 us apart on multi-Gbit/s paths
 				}
 				if l.QueueX > 0 {
 					p.QueueBytes = max(int64(l.QueueX*float64(bdp)), bdp+2*1500, 6*1500)
@@ -1224,7 +1274,7 @@ func TestVerifC12Progress(t *testing.T) {
 				}
 				if util < vfC12UtilThreshold[prof] {
 					k.Violation("bbr:goodput-far-below-capacity:"+string(prof), map[string]any{"case_id": id, "params": p, "last_calls": sim.mon.Tail()},
-						"%s: loss-free %s link, second-half goodput %.1f%% of capacity (< %.0f%%): delivered %d B in %.0f s at %d B/s; cwnd=%d mode=%d pacingRate=%d bit/s",
+						"%s: loss-free %s link, second-half goodput %.1f%% of capacity (< %.0f%%): delivered %d B in %.2f s at %d B/s; cwnd=%d mode=%d pacingRate=%d bit/s",
 						id, l.Name, util*100, vfC12UtilThreshold[prof]*100, sim.deliveredLate, half, capBps, sim.mon.bbrSender.GetCongestionWindow(), sim.mon.bbrSender.mode, sim.mon.bbrSender.pacingRate)
 				}
 			}
